@@ -58,6 +58,7 @@ static void pp_ini_file_parameter_free (PIniParameter *param);
 static PIniSection * pp_ini_file_section_new (const pchar *name);
 static void pp_ini_file_section_free (PIniSection *section);
 static pchar * pp_ini_file_find_parameter (const PIniFile *file, const pchar *section, const pchar *key);
+static PList * pp_ini_file_list_add_copy (PList *list, const pchar *str, pboolean is_append);
 
 static PIniParameter *
 pp_ini_file_parameter_new (const pchar	*name,
@@ -137,6 +138,32 @@ pp_ini_file_find_parameter (const PIniFile *file, const pchar *section, const pc
 	return NULL;
 }
 
+static PList *
+pp_ini_file_list_add_copy (PList *list, const pchar *str, pboolean is_append)
+{
+	PList	*ret;
+	PList	*last;
+	pchar	*copy;
+
+	copy = p_strdup (str);
+
+	if (is_append) {
+		ret  = p_list_append (list, copy);
+		last = p_list_last (ret);
+
+		/* The list item was not allocated, do not lose the copy */
+		if (P_UNLIKELY (last == NULL || last->data != copy))
+			p_free (copy);
+	} else {
+		ret = p_list_prepend (list, copy);
+
+		if (P_UNLIKELY (ret == list))
+			p_free (copy);
+	}
+
+	return ret;
+}
+
 P_LIB_API PIniFile *
 p_ini_file_new (const pchar *path)
 {
@@ -176,6 +203,7 @@ p_ini_file_parse (PIniFile	*file,
 {
 	PIniSection	*section;
 	PIniParameter	*param;
+	PList		*tmp_list;
 	FILE		*in_file;
 	pchar		*dst_line;
 	pchar		*tmp_str;
@@ -248,8 +276,14 @@ p_ini_file_parse (PIniFile	*file,
 				if (section != NULL) {
 					if (section->keys == NULL)
 						pp_ini_file_section_free (section);
-					else
-						file->sections = p_list_prepend (file->sections, section);
+					else {
+						tmp_list = p_list_prepend (file->sections, section);
+
+						if (P_UNLIKELY (tmp_list == file->sections))
+							pp_ini_file_section_free (section);
+						else
+							file->sections = tmp_list;
+					}
 				}
 
 				section = pp_ini_file_section_new (key);
@@ -278,8 +312,14 @@ p_ini_file_parse (PIniFile	*file,
 					if (strcmp (value, "\"\"") == 0 || (strcmp (value, "''") == 0))
 						value[0] = '\0';
 
-					if (section != NULL && (param = pp_ini_file_parameter_new (key, value)) != NULL)
-						section->keys = p_list_prepend (section->keys, param);
+					if (section != NULL && (param = pp_ini_file_parameter_new (key, value)) != NULL) {
+						tmp_list = p_list_prepend (section->keys, param);
+
+						if (P_UNLIKELY (tmp_list == section->keys))
+							pp_ini_file_parameter_free (param);
+						else
+							section->keys = tmp_list;
+					}
 				}
 			}
 		}
@@ -291,8 +331,13 @@ p_ini_file_parse (PIniFile	*file,
 	if (section != NULL) {
 		if (section->keys == NULL)
 			pp_ini_file_section_free (section);
-		else
+		else {
 			file->sections = p_list_append (file->sections, section);
+			tmp_list       = p_list_last (file->sections);
+
+			if (P_UNLIKELY (tmp_list == NULL || tmp_list->data != section))
+				pp_ini_file_section_free (section);
+		}
 	}
 
 	if (P_UNLIKELY (fclose (in_file) != 0))
@@ -324,7 +369,7 @@ p_ini_file_sections (const PIniFile *file)
 	ret = NULL;
 
 	for (sec = file->sections; sec != NULL; sec = sec->next)
-		ret = p_list_prepend (ret, p_strdup (((PIniSection *) sec->data)->name));
+		ret = pp_ini_file_list_add_copy (ret, ((PIniSection *) sec->data)->name, FALSE);
 
 	return ret;
 }
@@ -349,7 +394,7 @@ p_ini_file_keys (const PIniFile	*file,
 		return NULL;
 
 	for (item = ((PIniSection *) item->data)->keys; item != NULL; item = item->next)
-		ret = p_list_prepend (ret, p_strdup (((PIniParameter *) item->data)->name));
+		ret = pp_ini_file_list_add_copy (ret, ((PIniParameter *) item->data)->name, FALSE);
 
 	return ret;
 }
@@ -488,7 +533,7 @@ p_ini_file_parameter_list (const PIniFile	*file,
 			buf[buf_cnt] = '\0';
 
 			if (buf_cnt > 0)
-				ret = p_list_append (ret, p_strdup (buf));
+				ret = pp_ini_file_list_add_copy (ret, buf, TRUE);
 
 			buf_cnt = 0;
 		}
@@ -498,7 +543,7 @@ p_ini_file_parameter_list (const PIniFile	*file,
 
 	if (buf_cnt > 0) {
 		buf[buf_cnt] = '\0';
-		ret = p_list_append (ret, p_strdup (buf));
+		ret = pp_ini_file_list_add_copy (ret, buf, TRUE);
 	}
 
 	p_free (val);
